@@ -1100,15 +1100,25 @@ Definition w1 : world := mkW [KOk; KOk; KOk] [(0, 1); (2, 0)].
 Definition ops1 : list op :=
   [OOpen 0 false; OOpen 2 false; OOpen 2 false; OWalk 2 [0; 1]; OWalk 3 [0]; OClose 2; OClose 1; OClose 3].
 
+
+(* evaluate a concrete run, then read the claims off the resulting state (no existential variables under vm_compute) *)
+Ltac run_concrete :=
+  match goal with
+  | |- exists s rs, ?R = Some (s, ?p, rs) /\ _ =>
+      let E := fresh "E" in
+      destruct R as [[[? ?] ?]|] eqn:E; [|vm_compute in E; discriminate];
+      vm_compute in E; inversion E; subst; clear E;
+      eexists; eexists; split; [reflexivity|]
+  end.
+
 Lemma refuted_shared_link :
   exists s rs, run Faithful 1000 w1 io_init [] ops1 = Some (s, [], rs) /\
                nth 5 rs (ResWalk false) = ResClose ROk /\
                nth 6 rs (ResWalk false) = ResClose (RAdf ADF_FILE_NOT_OPENED) /\
                nopen s = 1 /\ iol s <> [] /\ ~ clean s.
 Proof.
-  eexists. eexists. split; [vm_compute; reflexivity|]. repeat split; try (vm_compute; reflexivity).
-  - vm_compute. discriminate.
-  - intros (_ & _ & H & _). vm_compute in H. discriminate.
+  run_concrete. split; [reflexivity|]. split; [reflexivity|]. split; [reflexivity|]. split; [discriminate|].
+  intros (_ & _ & H & _). discriminate.
 Qed.
 
 (* the moment of the premature close: A (slot 0) is in use and lists slot 2 in links[], slot 2 (B) is closed *)
@@ -1116,7 +1126,7 @@ Lemma refuted_premature_close :
   exists s rs, run Faithful 1000 w1 io_init [] [OOpen 0 false; OOpen 2 false; OWalk 2 [0; 1]; OClose 2] = Some (s, [1], rs) /\
                in_use (slot_at (io_adf s) 0) = 1 /\ links (slot_at (io_adf s) 0) = [2] /\
                in_use (slot_at (io_adf s) 2) = 0 /\ ledger (io_adf s) = [0].
-Proof. eexists. eexists. repeat split; vm_compute; reflexivity. Qed.
+Proof. run_concrete. repeat split; reflexivity. Qed.
 
 (* W2: two files that link to each other.  ADFI_close_file never returns, whatever the fuel (the C: stack overflow). *)
 Definition w2 : world := mkW [KOk; KOk] [(0, 1); (1, 0)].
@@ -1137,23 +1147,28 @@ Qed.
 
 Lemma refuted_cycle : forall fuel, run Faithful fuel w2 io_init [] ops2 = None.
 Proof.
-  intros fuel. unfold ops2. cbn -[cgio_close_file].
-  assert (E : cgio_close_file Faithful fuel (mkio a2 [Some 0; None; None; None; None] 1) 1 = None).
-  { unfold cgio_close_file. cbn -[adfi_close_file]. unfold adfi_close_file.
+  intros fuel. unfold ops2.
+  set (s1 := mkio (mkadf [mkslot 1 true (Some 0) []; free_slot; free_slot; free_slot; free_slot] [0])
+                  [Some 0; None; None; None; None] 1).
+  set (s2 := mkio a2 [Some 0; None; None; None; None] 1).
+  assert (S1 : step Faithful fuel w2 io_init (OOpen 0 false) = Some (s1, ResOpen (Some 1))) by reflexivity.
+  assert (S2 : step Faithful fuel w2 s1 (OWalk 1 [1; 0]) = Some (s2, ResWalk true)) by reflexivity.
+  assert (S3 : step Faithful fuel w2 s2 (OClose 1) = None).
+  { unfold step, cgio_close_file, s2. cbn [iol io_adf length nth Nat.leb tab a2]. unfold adfi_close_file.
     destruct (cycle_diverges fuel [FEnter 0] 0 I) as [m ->]. reflexivity. }
-  rewrite E. reflexivity.
+  cbn [run]. rewrite S1. cbn [run]. rewrite S2. cbn [run]. rewrite S3. reflexivity.
 Qed.
 
 (* the repair FixA terminates on W2 but the two files then keep each other open: a reference-count cycle *)
 Lemma fixA_cycle_leaks :
   exists s rs, run FixA 1000 w2 io_init [] ops2 = Some (s, [], rs) /\ ledger (io_adf s) = [1; 0] /\
                in_use (slot_at (io_adf s) 0) = 1 /\ in_use (slot_at (io_adf s) 1) = 1 /\ iol s = [].
-Proof. eexists. eexists. repeat split; vm_compute; reflexivity. Qed.
+Proof. run_concrete. repeat split; reflexivity. Qed.
 
 (* and FixA on W1: every close succeeds and nothing is left *)
 Lemma fixA_w1_clean : exists s rs, run FixA 1000 w1 io_init [] ops1 = Some (s, [], rs) /\ cleanb s = true /\
   forallb (fun r => match r with ResClose ROk | ResOpen (Some _) | ResWalk true => true | _ => false end) rs = true.
-Proof. eexists. eexists. repeat split; vm_compute; reflexivity. Qed.
+Proof. run_concrete. split; reflexivity. Qed.
 
 (* ============================================================================================ the MLL table *)
 Record MInv (m : mll) (pend : list nat) : Prop := mkMInv {
@@ -1196,6 +1211,16 @@ Proof.
   rewrite IH by tauto. reflexivity.
 Qed.
 
+Lemma MInv_weaken m p p' : (forall x, In x p -> In x p') -> MInv m p -> MInv m p'.
+Proof. intros Hs [C Z H P]. constructor; auto. intros i h Hn. apply Hs. eauto. Qed.
+
+Lemma in_remove_all_inv x c l : In x (remove_all c l) -> In x l /\ x <> c.
+Proof.
+  induction l as [|y r IH]; simpl; [tauto|]. destruct (Nat.eqb_spec y c).
+  - intros H. destruct (IH H). auto.
+  - intros [->|H]; [auto|]. destruct (IH H). auto.
+Qed.
+
 Lemma mstep_inv m pend o : MInv m pend ->
   let '(m1, p1, _) := mstep MFixed m pend o in MInv m1 p1.
 Proof.
@@ -1217,19 +1242,11 @@ Proof.
       pose proof (Succ sz) as S1.
       pose proof (mll_release_inv _ _ (length (files m)) (nexth m) S1) as R. simpl in R.
       rewrite app_nth2, Nat.sub_diag in R by lia. specialize (R eq_refl).
-      rewrite app_length in R. simpl in R.
-      replace (length (files m) + 1 + foffset m) with (length (files m) + 1 + foffset m) in R by lia.
-      simpl in R. rewrite Nat.eqb_refl in R.
-      destruct (mll_release _ _ _) eqn:Em in R |- *.
-      destruct R as [C1 Z1 H1 P1]. constructor; auto.
-      intros i h Hn. specialize (P1 i h Hn).
-      destruct (in_dec Nat.eq_dec (length (files m) + 1 + foffset m) pend) as [Hin|Hnin].
-      * (* that number cannot be pending: it would name a live entry beyond the table *)
-        clear - P1 Hin. induction pend as [|y r IH]; simpl in *; [tauto|].
-        destruct (Nat.eqb_spec y (length (files m) + 1 + foffset m)); simpl in P1; auto.
-        destruct P1; auto.
-      * rewrite remove_all_notin in P1 by exact Hnin. exact P1.
-    + apply Succ.
+      eapply MInv_weaken; [|exact R].
+      intros x Hx.
+      destruct (Nat.eqb_spec (length (files m ++ [Some (nexth m)]) + foffset m) (length (files m) + 1 + foffset m)) as [_|Hne].
+      * apply in_remove_all_inv in Hx. tauto.
+      * exfalso. apply Hne. rewrite app_length. simpl. lia.
   - (* cg_close *)
     unfold cg_close.
     assert (NoLive : forall i h, nth i (files m) None = Some h -> i + 1 + foffset m = fn ->
@@ -1238,7 +1255,7 @@ Proof.
     { intros i h Hn <-. pose proof (nth_some_lt _ _ _ Hn). split.
       - apply orb_false_intro; [apply Nat.leb_gt; lia|apply Nat.ltb_ge; lia].
       - replace (i + 1 + foffset m - foffset m - 1) with i by lia. exact Hn. }
-    assert (Same : forall b, (forall i h, nth i (files m) None = Some h -> i + 1 + foffset m <> fn) ->
+    assert (Same : forall b : bool, (forall i h, nth i (files m) None = Some h -> i + 1 + foffset m <> fn) ->
                    MInv m (if b then remove_all fn pend else pend)).
     { intros b Hno. destruct b; auto. constructor; auto. intros i h Hn. apply in_remove_all; eauto. }
     destruct ((fn <=? foffset m) || (length (files m) <? fn - foffset m)) eqn:Bad; simpl.
@@ -1276,4 +1293,39 @@ Proof. eexists. repeat split; reflexivity. Qed.
 
 Lemma mll_fixed_failed_open :
   exists m, mrun MFixed mll_init [] [MOpen OLateFail] = (m, []) /\ n_open m = 0 /\ held m = [] /\ files m = [].
+Proof. eexists. repeat split; reflexivity. Qed.
+
+(* ============================================================================================ the full statements *)
+Lemma refcount_balanced_refuted : ~ refcount_balanced Faithful.
+Proof.
+  intros H. destruct refuted_shared_link as (s & rs & Rn & _ & _ & _ & _ & Nc). exact (Nc (H _ _ _ _ _ Rn)).
+Qed.
+
+Lemma handles_released_refuted : ~ handles_released MFaithful.
+Proof.
+  intros H. destruct mll_refuted_failed_open as (m & Rn & N1 & _). destruct (H _ _ Rn) as (N0 & _). congruence.
+Qed.
+
+Lemma handles_released_fixed : handles_released MFixed.
+Proof. exact mll_released_fixed. Qed.
+
+Lemma w1_acyclic : acyclic w1 (fun n => match n with 2 => 2 | 0 => 1 | _ => 0 end).
+Proof.
+  intros a b H. unfold has_link, w1 in H. simpl in H.
+  destruct a as [|[|[|a]]]; destruct b as [|[|[|b]]]; simpl in H; try discriminate; lia.
+Qed.
+
+Lemma invariant_example :
+  exists s rs, run FixA 1000 w1 io_init [] [OOpen 0 false; OOpen 2 false; OWalk 2 [0; 1]] = Some (s, [2; 1], rs) /\
+               IOInv w1 s [2; 1] /\ in_use (slot_at (io_adf s) 0) = 2 /\ ledger (io_adf s) = [1; 2; 0].
+Proof.
+  destruct (run FixA 1000 w1 io_init [] [OOpen 0 false; OOpen 2 false; OWalk 2 [0; 1]]) as [[[s p] rs]|] eqn:E;
+    [|vm_compute in E; discriminate].
+  pose proof (run_inv _ _ _ _ _ _ _ _ (IOInv_init w1) E) as I.
+  vm_compute in E. inversion E; subst. eexists. eexists. split; [reflexivity|]. split; [exact I|]. split; reflexivity.
+Qed.
+
+Lemma mll_fixed_example :
+  exists m, mrun MFixed mll_init [] [MOpen OSuccess; MOpen OLateFail; MOpen OSuccess; MClose 1 true; MClose 3 true] = (m, []) /\
+            n_open m = 0 /\ held m = [] /\ files m = [] /\ foffset m = 3.
 Proof. eexists. repeat split; reflexivity. Qed.
